@@ -440,6 +440,33 @@ fn c06_bind() {
     std::mem::forget(st);
 }
 
+// @gv props=C06,C04 tier=quick required=yes fns=ProtocolState::apply_session_present_to_connection,ProtocolState::unbind_operation_packet_id
+// @gv bounds="session lost (CONNACK without session): a SUBSCRIBE / UNSUBSCRIBE (symbolic) that had been written and was re-queued to the user queue at close still holds a symbolic packet id; one stale reservation; inbound QoS2 set non-empty"
+// @gv timeout=900
+#[kani::proof]
+#[kani::unwind(6)]
+#[kani::stub(std::fmt::format, stub_format)]
+fn c06_session_absent_restarts_user_queue() {
+    let mut st = mk_state(ProtocolStateType::Connected);
+    let (pid, other): (u16, u16) = (kani::any(), kani::any());
+    kani::assume(pid != 0 && other != 0 && pid != other);
+    let op = if kani::any() { mk_subscribe_op(5, Some(pid)) } else { mk_unsubscribe_op(5, Some(pid)) };
+    st.operations.insert(5, op);
+    st.allocated_packet_ids.insert(pid, 5);
+    st.allocated_packet_ids.insert(other, 77);
+    st.user_operation_queue.push_back(5);
+    let r = st.apply_session_present_to_connection(false);
+    assert!(r.is_ok());
+    // the operation starts over: it gives its identifier back (it will get a fresh, reserved one when it is sent again)
+    let o = st.operations.get(&5).unwrap();
+    assert!(o.packet_id.is_none());
+    match &*o.packet { MqttPacket::Subscribe(x) => assert!(x.packet_id == 0), MqttPacket::Unsubscribe(x) => assert!(x.packet_id == 0), _ => assert!(false) }
+    assert!(st.allocated_packet_ids.is_empty());
+    assert!(st.user_operation_queue.len() == 1 && *st.user_operation_queue.front().unwrap() == 5);
+    assert!(unsafe { CALLS } == 0);
+    std::mem::forget(r); std::mem::forget(st);
+}
+
 // @gv props=C06 tier=quick required=yes fns=ProtocolState::unbind_operation_packet_id,ClientOperation::unbind_packet_id
 // @gv bounds="one bound publish/subscribe/unsubscribe with symbolic id plus one other symbolic reservation"
 #[kani::proof]
@@ -1214,7 +1241,7 @@ fn c07_connect_faithful() {
     std::mem::forget(st);
 }
 
-// @gv props=C07 tier=quick required=yes fns=build_negotiated_settings
+// @gv props=C07,C16,C09,C14 tier=quick required=yes fns=build_negotiated_settings
 // @gv bounds="all 2^11 present/absent combinations of the CONNACK properties with symbolic values; CONNECT keep-alive / session expiry present or absent; client id from CONNACK (1 byte) / CONNECT (1 byte) / previous settings (1 byte) / none"
 // @gv timeout=900
 #[kani::proof]
